@@ -255,6 +255,12 @@ func (s *Synchronizer) isReverting(
 		return 0, false
 	}
 
+	if remoteHeight == 0 {
+		// The source's genesis differs from ours: nothing we hold can be valid, and
+		// remoteHeight-1 would wrap around and make revertTask ask for blocks the source lacks.
+		return 0, true
+	}
+
 	return remoteHeight - 1, true
 }
 
